@@ -34,7 +34,7 @@ def _classify(msg):
     return None
 
 
-def run(rs_path, rlimit=None, expand=False, timeout=600, threads=8):
+def run(rs_path, rlimit=None, expand=False, timeout=600, threads=8, seed=None):
     """Returns a dict describing the run.  status ∈ {"verified","failed","undecided"}."""
     cmd = [VERUS, os.path.basename(rs_path), "--output-json", "--time", "--triggers-mode", "silent",
            "--error-format=json", "--num-threads", str(threads), "--multiple-errors", "8"]
@@ -42,6 +42,8 @@ def run(rs_path, rlimit=None, expand=False, timeout=600, threads=8):
         cmd += ["--rlimit", str(rlimit)]
     if expand:
         cmd += ["--expand-errors"]
+    if seed is not None:
+        cmd += ["--smt-option", "smt.random_seed=%d" % seed, "--smt-option", "sat.random_seed=%d" % seed]
     t0 = time.time()
     try:
         p = subprocess.run(cmd, cwd=os.path.dirname(rs_path), capture_output=True, text=True, timeout=timeout)
